@@ -705,7 +705,7 @@ func runPairs(c *kit.Ctx) (int, int) {
 	perMutatorPairs(c, ms)
 	nRand, maxMut := 900, 3
 	if c.Thorough() {
-		nRand, maxMut = 12000, 5
+		nRand, maxMut = 6000, 5
 	}
 	for i := 0; i < nRand; i++ {
 		randomPair(c, ms, maxMut)
